@@ -10,6 +10,7 @@ import VsgModel.Base.Indent
 import VsgModel.Base.BlankLine
 import VsgModel.Base.Whitespace
 import VsgModel.Generated.Classes
+import VsgModel.Base.DispatchStruct
 namespace Vsgm.Base
 open Vsgm
 
@@ -146,6 +147,12 @@ def actTwice (action : KV) (k : String) : Except PyErr Int := do
 /-- class indices of the layout tokens the line-structure fixes create -/
 def lineCls : LineStruct.Cls := { ws := Gen.wsCls, cr := Gen.crCls, blank := Gen.blankCls }
 
+/-- every owner served by an arm in front of the structure-family dispatcher -/
+def earlierOwners : List String :=
+  alignOwners ++ indentOwners ++ blankBelowOwners ++ blankAboveOwners ++ excessAboveOwners ++ excessBelowOwners ++
+    removeAboveOwners ++ ws200Owners ++ betweenPairsOwners ++ wsOwners ++ caseTokenOwners ++ caseFormalOwners ++
+    caseConsistentOwners ++ caseInterfaceOwners ++ LineStruct.allOwners
+
 /-- the model of `owner._fix_violation` applied to the tokens of interest -/
 def fixByOwner (owner : String) (params action : KV) (old : List Tok) : Option (Except PyErr (List Tok)) :=
   if owner ∈ alignOwners then
@@ -198,6 +205,6 @@ def fixByOwner (owner : String) (params action : KV) (old : List Tok) : Option (
   else if owner ∈ caseInterfaceOwners then
     some (Case.Consistent.fixV (needOptStr action "value") old)
   else if owner ∈ LineStruct.allOwners then LineStruct.fixByOwner lineCls owner params action old
-  else none
+  else fixStruct stdEnv owner params action old
 
 end Vsgm.Base
